@@ -445,6 +445,23 @@ def run(R):
                     fdesc = {"kind": "named-two-root-truncated", "name": "back-to-%s" % (back_to,), "repdep": True, "trunc": trunc, "back_to": list(back_to)}
                     run_op(R, fdesc, f2, "bulkwalk", "strict", bulk, roots=(ROOT, ROOT2))
                     R.mon["two_root_truncated_families"] += 1
+    if R.shard == 0:
+        # two roots: the column listed first is at endOfMibView in the very response in
+        # which the other column does not advance (the check of one binding must not
+        # depend on what its neighbours carry)
+        for first, second in ((ROOT, ROOT2), (ROOT2, ROOT)):
+            inside = IN2 if second == ROOT2 else IN
+            for target in (second, BEFORE, inside[0]):
+                for depth in (0, 1):
+                    # depth 0: the fault is in the first response; 1: one good step first
+                    mapping = {first: None, second: target if depth == 0 else inside[0], inside[0]: target if depth == 1 else inside[1], inside[1]: None}
+                    if depth == 1:
+                        mapping[first] = (IN if first == ROOT else IN2)[0]
+                        mapping[(IN if first == ROOT else IN2)[0]] = None
+                    fdesc = {"kind": "named", "name": "eomv-first-column-other-stalls-%d" % depth, "map": [[list(k), list(v) if v else None] for k, v in mapping.items()]}
+                    for op, mode, bulk in (("multiwalk", "strict", None), ("multiwalk", "warn", None), ("bulkwalk", "strict", 1), ("bulkwalk", "strict", 2)):
+                        run_op(R, fdesc, table_f(mapping), op, mode, bulk, roots=(first, second))
+                        R.mon["two_root_eomv_first_families"] += 1
     complete = True
     sizes = (2, 3) if R.tier == "quick" else (2, 3, 4)
     for k in sizes:
